@@ -81,6 +81,16 @@ FIXED = [
  ("C12", "gate:xref-stream-of-encrypted-file", "the cross-reference stream is decoded without going through the stream cache", "reading the cross-reference stream object of an encrypted file gave the right data with a stream cache (loading had cached it before the decoder existed) and failed without one; and when a later section gives the xref stream's object number to an ordinary stream, the cached document returned the old cross-reference bytes for it (found by a seeding agent as a side remark)"),
  ("C14", "crash:signal6:stack-overflow (DeviceN alternate)", "the alternate of a DeviceN colour space shares the nesting budget", "'7 0 obj [/DeviceN [/A] 7 0 R <<function>>]' used as a page colour space: ColorSpace read the alternate with a fresh depth budget and no guard, the stack overflowed and the process aborted (pointed out by a seeding agent; C14's fragment had DeviceN only as a direct value, so no substitution could make it refer to itself)"),
  ("C14", "panic:pdf/src/object/stream.rs:pdf::object::stream::ObjectStream::get_object_slice:attempt to add with overflow", "object stream offsets are added with an overflow check", "an object stream whose offset table holds 18446744073709551615: /First + offset overflowed in get_object_slice (pointed out by a seeding agent; C14 now plants boundary numbers in offset tables)"),
+ ("C14", "crash:signal6:stack-overflow (object whose value is a reference)", "an object whose value is a reference is followed with a bound", "'9 0 obj 9 0 R endobj' named by /Contents, a tint transform, /Encoding, /Kids, the trailer /ID or the catalog itself: Dictionary, Vec, HashMap, PdfStream, Function, Encoding and Content readers recursed until the stack overflowed (found by a code-reading agent; C14 now plants such objects in every slot)"),
+ ("C14", "panic:pdf/src/file.rs:*resolve_ref:attempt to add with overflow", "the offset of a cross-reference entry is added to the header position with an overflow check", "bytes before the header and an entry '18446744073709551615 00000 n': start_offset + pos overflowed in resolve_ref (found by a code-reading agent; kept in corpus/hostile)"),
+ ("C14", "hang:no-return-within-160s (failed load repeated at every level)", "a load that fails is not repeated by the call that just tried it", "uncached: a chain of d typed references ending in a broken object cost 2^d loads because get() re-read an object after its own failed attempt (a side effect of the earlier 'cached error of another type' repair; found by a code-reading agent)"),
+ ("C14", "crash:signal6:stack-overflow (long /Parent chain)", "eager loads are nested at most 48 deep", "a root /Pages node with a /Parent chain of 300-3000 distinct nodes overflowed the stack inside load(); total allocation out of proportion for 1000 nodes (found by a code-reading agent; C14 now builds such chains)"),
+ ("C14", "crash:signal6:stack-overflow (string of line continuations)", "ignored escapes in a literal string no longer cost a stack frame each", "'(' followed by 20000 x backslash LF: one recursive call per continuation overflowed the stack (found by a code-reading agent; kept in corpus/hostile)"),
+ ("C14", "panic:pdf/src/crypt.rs:pdf::crypt::Decoder::key:range end index N out of range for slice of length N", "the unwrapped AES-256 file key must be 32 bytes long", "/R 5 with an empty /UE and an RC4 method: load() panicked slicing [..16] out of an empty key (found by a code-reading agent; kept in corpus/hostile)"),
+ ("C14", "panic:pdf/src/enc.rs:pdf::enc::fax_decode:*", "CCITTFaxDecode validates /Columns and /Rows", "/Columns 0 (remainder by zero), /Columns 65537 (assert_eq!), /Columns 2147483647 /Rows 2147483647 (allocation of 4.6e18 bytes aborts) on a 600-byte file (found by a code-reading agent; C14's fragment now has a fax image under the numeric substitutions)"),
+ ("C14", "crash:signal6:stack-overflow (/JBIG2Globals names its own stream)", "streams inside filter parameters are nested at most 4 deep", "a stream whose /DecodeParms << /JBIG2Globals N 0 R >> is the stream itself recursed while its filter list was built (found by a code-reading agent; C14's fragment now has such a pair under the reference substitutions)"),
+ ("C20", "crash:stack-overflow / panic:pdf/src/build.rs:*clone_rcref*unwrap", "the importer's typed reference paths record the copy before descending", "importing a page whose image is its own /SMask or whose form lists itself in its resources overflowed the stack; a property list used inline (<< /K 7 0 R >> BDC) and by name (/MC0 BDC) panicked on Option::unwrap in clone_rcref (found by a code-reading agent; C20 now imports from hostile sources)"),
+ ("C14", "hang / resource:total-allocation-out-of-proportion (shared objects without a cache)", "an object reachable along several paths is loaded once per call", "uncached: Type0 fonts whose /DescendantFonts name the next font four times, depth 24 (4 KB): loading the font never finished (found by a code-reading agent; kept in corpus/hostile); a backstop of 100 000 loads per call was added as well"),
 ]
 OPEN = [
  ("C20", "c20:resource-missing:ColorSpace", "an imported page whose content names a colour space resource (/CS1 cs) arrives without /ColorSpace: deep_clone_op does not copy colour space resources; a repair needs writers for most ColorSpace variants (ColorSpace::to_primitive is unimplemented!() except for three), so it is recorded"),
